@@ -412,18 +412,20 @@ class _Rewriter(ast.NodeTransformer):
     # over several rounds)
     def visit_FunctionDef(self, node):
         self.current.append(node.name)
-        self.generic_visit(node)
         node.body = self.block(node.body)
+        self.generic_visit(node)
         self.current.pop()
         return node
 
     def generic_visit(self, node):
-        super().generic_visit(node)
+        # statement-level forms first (a helper called as a whole statement is spliced as statements, keeping its control flow); what
+        # remains is substituted at expression level
         if not isinstance(node, (ast.FunctionDef, ast.AsyncFunctionDef)):
             for f in ("body", "orelse", "finalbody"):
                 v = getattr(node, f, None)
                 if isinstance(v, list) and v and isinstance(v[0], ast.stmt):
                     setattr(node, f, self.block(v))
+        super().generic_visit(node)
         return node
 
     # ---- expression level -------------------------------------------------------
